@@ -58,6 +58,7 @@ type Prog struct {
 	Flush           []bool    `json:"flush,omitempty"`
 	Trailers        []wire.KV `json:"trailers,omitempty"`
 	Close           bool      `json:"close,omitempty"`
+	ResetFirst      bool      `json:"response_reset_first,omitempty"` // the handler starts with ctx.Response.Reset() (what AbortWithMsg / NotFound do)
 	Salt            byte      `json:"salt"`
 	Flavor          int       `json:"flavor"`
 	body            []byte
@@ -116,6 +117,9 @@ func handler(c context.Context, ctx *app.RequestContext) {
 		return
 	}
 	p := &curCase.Progs[i]
+	if p.ResetFirst {
+		ctx.Response.Reset()
+	}
 	if !p.StatusAfterBody {
 		ctx.SetStatusCode(p.Status)
 	}
@@ -401,6 +405,7 @@ func genCase(t *rapid.T) *Case {
 		if rapid.IntRange(0, 12).Draw(t, "progClose") == 0 {
 			p.Close = true
 		}
+		p.ResetFirst = rapid.IntRange(0, 3).Draw(t, "responseResetFirst") == 0
 		c.Reqs = append(c.Reqs, r)
 		c.Progs = append(c.Progs, p)
 	}
